@@ -52,7 +52,7 @@ ABSORB_SUMMARY(16);
 #define CRYPT_SUMMARY(TAG, R) \
 __CPROVER_requires(first_round <= 12 && partial < (R) && len <= VERIF_MAX_LEN) \
 __CPROVER_requires(__CPROVER_rw_ok(state, sizeof(ascon_state_t))) \
-__CPROVER_requires(__CPROVER_r_ok(src, len) && __CPROVER_w_ok(dest, len)) \
+__CPROVER_requires(len == 0 || (__CPROVER_r_ok(src, len) && __CPROVER_w_ok(dest, len))) \
 __CPROVER_assigns(*state, verif_crypt_log) \
 __CPROVER_assigns(len > 0: __CPROVER_object_upto(dest, len)) \
 L1_STATE_ENSURES(TAG, src, len, SPEC_L1_MISC(first_round, partial)) \
